@@ -1456,9 +1456,20 @@ pub fn run_script_body(s: &Script, cfg: Cfg) {
     install_panic_hook();
     cactusref::__verif::reset();
     let wd = w();
+    // allocation-failure injection (one case in eight): the k-th allocation the
+    // library makes fails once; the process may end there (abort on OOM is the
+    // standard reaction) or the library may cope, in which case everything is
+    // judged as usual
+    arena::st().fail_in = if (s.layout_seed >> 28) & 7 == 0 && !exec::inproc() && std::env::var_os("CX_NO_OOM").is_none() { 1 + (s.layout_seed >> 32) % 96 } else { 0 };
     for (i, op) in s.ops.iter().enumerate() {
         shared().op = i as u32;
         arena::st().ctx_op = i as u32;
+        if arena::st().fail_fired {
+            // the call during which the allocation failed has returned
+            arena::st().fail_fired = false;
+            shared().expect_abort = 0;
+            label(lab::ALLOC_FAILURE_SURVIVED);
+        }
         wd.panic_armed.set(true);
         wd.destroyed_this_op.borrow_mut().clear();
         wd.panic_fired.set(false);
@@ -1482,6 +1493,13 @@ pub fn run_script_body(s: &Script, cfg: Cfg) {
             digest_step(i);
         }
     }
+    if arena::st().fail_fired {
+        arena::st().fail_fired = false;
+        shared().expect_abort = 0;
+        label(lab::ALLOC_FAILURE_SURVIVED);
+    }
+    // the cleanup phase runs without injection
+    arena::st().fail_in = 0;
     if !s.cleanup.is_empty() {
         let base = s.ops.len();
         let mut k = 0usize;
